@@ -323,3 +323,67 @@ Proof.
   split. { unfold focus_ok. rewrite Hpc, Hw, Ho. apply rc3_rc_ok. exact RC. }
   unfold done_ok. rewrite F4. reflexivity.
 Qed.
+
+Lemma to_close_prev2 u : t_prev2 (to_close u) = t_prev2 u.
+Proof. unfold to_close. destruct (t_prev u); reflexivity. Qed.
+
+(* the nested walk loads the head of the list *)
+Lemma core3_head ms t ms' t' r c w ws : MW ms -> m_walks t = w :: ws -> w_own w = Some (r, c) ->
+  CIb ms (bview t r c ws) -> NW ms t r c w -> m_pc t = MHead ->
+  mstep_core ms t = (ms', t') -> step3 ms t ms' t'.
+Proof.
+  intros W Hw Ho IB (Gr & NL & RC & _ & g0 & P2 & PG & NN & QC & PH) Hpc H.
+  rewrite Hpc in PH. destruct PH as (_ & _ & _ & PH). pose proof RC as (Hc & Hcl & Hr).
+  pose proof W as (_ & W2 & W3 & _). pose proof (MW_MS _ W) as S.
+  unfold mstep_core in H. rewrite Hpc, Hw in H. cbv zeta in H. rewrite Ho in H.
+  destruct (memn c (ms_list ms)) eqn:Emc; cbn [negb] in H.
+  2:{ injection H as <- <-. left. cbn. apply orb_true_r. }
+  assert (OK : alli (fun j u => memn j (ms_list ms) || true && is_own w j || pc_is (t_pc u) IvLoad) (m_nest t) = true).
+  { apply (alli_of_nth _ dflt). intros j Hj. rewrite NL in Hj. destruct (Nat.eqb j c) eqn:Ej.
+    - unfold is_own. rewrite Ho, Ej. cbn. rewrite orb_true_r. reflexivity.
+    - specialize (PH j Hj). unfold VF in PH. rewrite Ej in PH. rewrite PH. apply orb_true_r. }
+  rewrite OK in H. cbn [negb] in H. rewrite set_chk_false, set_bad_false in H. injection H as <- <-.
+  set (sk := fun (j : nat) (u : thread) => if memn j (ms_list ms) || true && is_own w j then u else skip_thread u).
+  assert (SKD : forall j, sk j dflt = dflt) by (intros j; unfold sk; destruct (memn j (ms_list ms) || _); reflexivity).
+  destruct (ms_list ms) as [|c' rest'] eqn:El; [discriminate Emc|].
+  match goal with |- step3 _ _ _ ?T => set (T' := T) end.
+  (* what the new thread looks like *)
+  assert (TF : m_pc T' = MRun /\ m_c T' = c' /\ m_role T' = visit_role w c' /\
+               m_walks T' = mkW rest' (c' :: rest') PInv (Some (r, c)) :: ws /\
+               m_nest T' = mapi sk (m_nest t) /\ m_main T' = m_main t /\ m_redo T' = m_redo t /\
+               m_grown T' = m_grown t /\ m_isadd T' = m_isadd t /\ m_k T' = m_k t /\ m_tgt T' = m_tgt t /\
+               m_wrote T' = m_wrote t /\ m_prev T' = m_prev t).
+  { unfold T', advance. cbn. unfold visit_role. rewrite Ho. repeat split; reflexivity. }
+  destruct TF as (F1 & F2 & F3 & F4 & F5 & F6 & F7 & F8 & F9 & F10 & F11 & F12 & F13).
+  assert (GO : gett T' r c = gett t r c) by (destruct r; cbn; rewrite ?F6, ?F7; try reflexivity; destruct Hr).
+  right. split; [reflexivity|]. split; [reflexivity|]. split.
+  { unfold T3. rewrite F4. cbn [w_own]. split.
+    - apply (bview_same ms ms t T'); [apply grows_refl | exact IB|].
+      unfold bview, same_ctl. rewrite GO. destruct r; try (destruct Hr; fail); cbn; rewrite ?F6, ?F7; repeat split; auto.
+    - unfold NW. rewrite F8, F5, mapi_len, F1, F2, F3, GO. cbn [w_own w_rest w_snap w_ph].
+      split; [exact Gr|]. split; [exact NL|]. split. { unfold rc3. rewrite F6, F9, F10. exact RC. }
+      split; [reflexivity|]. exists g0. split; [exact P2|]. split; [exact PG|].
+      split. { intros j Hj Nj. rewrite nth_mapi by exact SKD. destruct (NN j Hj Nj) as (K1 & K2 & K3). unfold sk.
+               destruct (memn j (c' :: rest') || true && is_own w j); [auto|]. unfold skip_thread.
+               destruct (to_close_keeps (nth j (m_nest t) dflt)) as [Q1 Q2]. rewrite Q1, Q2, to_close_prev2. auto. }
+      split. { rewrite nth_mapi by exact SKD. unfold sk, is_own. rewrite Ho, Nat.eqb_refl. cbn. rewrite orb_true_r. exact QC. }
+      exists [], rest'. cbn [app]. split; [reflexivity|]. split; [reflexivity|].
+      split; [split; [exact W3|exact W2]|]. split; [apply memn_In; exact Emc|]. split; [unfold visit_role; rewrite Ho; reflexivity|].
+      intros j Hj. unfold VF. rewrite GO, F5. rewrite nth_mapi by exact SKD.
+      assert (VJ : VF T' r c g0 j = VF T' r c g0 j) by reflexivity.
+      cbn [wstate]. split; [intros []|]. destruct (Nat.eqb j c) eqn:Ej.
+      + pose proof (PH j Hj) as PJ. unfold VF in PJ. rewrite Ej in PJ.
+        split; [intros _; left; exact PJ|]. split; [intros _; exact PJ|].
+        intros X. exfalso. apply X. apply Nat.eqb_eq in Ej. subst j. apply memn_In. exact Emc.
+      + pose proof (PH j Hj) as PJ. unfold VF in PJ. rewrite Ej in PJ. unfold sk, is_own. rewrite Ho, Ej. cbn [andb]. rewrite orb_false_r.
+        destruct (memn j (c' :: rest')) eqn:Em.
+        * split; [intros _; left; exact PJ|]. split; [intros _; exact PJ|]. intros X. exfalso. apply X. apply memn_In. exact Em.
+        * split; [intros X; injection X as <-; cbn in Em; rewrite Nat.eqb_refl in Em; discriminate|].
+          split; [intros X; assert (In j (c' :: rest')) by (right; exact X); apply memn_In in H; congruence|].
+          intros _. apply fin_to_close. }
+  split; [apply grows_refl|]. split; [exact S|]. split; [exact F9|]. split; [exact F10|].
+  split. { unfold lens_ok. destruct IB as [LB _]. unfold bview in LB. destruct r; try (destruct Hr; fail); cbn in LB; rewrite ?upd_len in LB;
+           rewrite LB, NL; fold (nc ms); rewrite Nat.eqb_refl; reflexivity. }
+  split. { unfold focus_ok. rewrite Hpc. reflexivity. }
+  unfold done_ok. rewrite F1. reflexivity.
+Qed.
